@@ -164,6 +164,58 @@ def run(res):
                                   'fair reference semantics: %s — a deviation that no recorded finding explains'
                                   % (logic, tree_str(tree), ctx['F'], a, m, spec),
                                   dict(ctx, impl=a, as_implemented_model=m, fair_reference=spec))
+    # ------------------------------------------------------------------ the rewriting and the label, on their own
+    # (fidelity of the as-implemented model: get_equivalent_non_fair_formula trees and the label label_fair_states picks)
+    from common import from_obj, enc_name
+    rw_lines, rw_impl, rw_meta = [], [], []
+    for logic, pool in (('CTL', FG.ctl_state(1) + [FG.rand_ctl(rng, 3) for _ in range(150 if quick else 1500)]),
+                        ('LTL', FG.ltl_path(1)[:200] + [FG.rand_ltl_path(rng, 3, max_temporal=4) for _ in range(100 if quick else 1000)]),
+                        ('CTLS', [FG.rand_ctls_state(rng, 3, max_temporal=3, qdepth=2) for _ in range(200 if quick else 2000)])):
+        for t in pool:
+            fair = rng.choice(['fair', 'fair0', 'fair12'])
+            try:
+                a = 'OK ' + sexpr(from_obj(to_obj(t, lang(logic)).get_equivalent_non_fair_formula(fair)))
+            except Exception as e:
+                a = 'ERR ' + type(e).__name__
+            rw_lines.append('NONFAIR|%s|%s|%s' % (logic, enc_name(fair), sexpr(t)))
+            rw_impl.append(a)
+            rw_meta.append((logic, t, fair))
+    rw_bad = 0
+    for (logic, t, fair), a, m in zip(rw_meta, rw_impl, lean_batch(rw_lines)):
+        m = m.strip()
+        m = m if m.startswith('ERR') or m.startswith('OK') else 'OK ' + m
+        if a.strip() != m:
+            rw_bad += 1
+            if rw_bad <= 2:
+                res.violation('%s: get_equivalent_non_fair_formula(%r) of %s is %s, the as-implemented model gives %s — '
+                              'correspondence Fair.nonFairCTL / nonFairCTLS vs the code no longer checks'
+                              % (logic, fair, tree_str(t), a[:200], m[:200]),
+                              {'logic': logic, 'formula_sexpr': sexpr(t), 'fair_label': fair, 'impl': a, 'model': m,
+                               'correspondence': 'PMC.Fair.nonFairCTL / nonFairCTLS (PMC/Model/Fair.lean) vs get_equivalent_non_fair_formula'},
+                              no_input=True)
+    lb_lines, lb_impl, lb_meta = [], [], []
+    for _ in range(150 if quick else 1500):
+        n = rng.choice([1, 2, 3])
+        succ = [[rng.randrange(n)] for _ in range(n)]
+        names = rng.sample(['fair', 'fair0', 'fair1', 'fair2', 'p', 'fair00', 'Fair', 'fair10'], rng.choice([0, 1, 2, 3, 4]))
+        labs = [[x for x in names if rng.random() < 0.6] for _ in range(n)]
+        K = V.build(succ, labs, list(range(n)))
+        try:
+            a = K.clone().label_fair_states([])
+        except Exception as e:
+            a = 'ERR ' + type(e).__name__
+        lb_lines.append('FAIRLABEL|%s' % V.enc_struct(K))
+        lb_impl.append(a)
+        lb_meta.append((succ, labs))
+    lb_bad = 0
+    for (succ, labs), a, m in zip(lb_meta, lb_impl, lean_batch(lb_lines)):
+        if enc_name(a) != m.strip() and a != m.strip():
+            lb_bad += 1
+            if lb_bad <= 2:
+                res.violation('label_fair_states on labels %s returns %r, the model %r — correspondence Fair.fairLabel vs the '
+                              'code no longer checks' % (labs, a, m.strip()),
+                              {'succ': succ, 'labels': labs, 'impl': a, 'model': m.strip(),
+                               'correspondence': 'PMC.Fair.fairLabel vs Kripke.label_fair_states'}, no_input=True)
     # ------------------------------------------------------------------ findings
     live = witnesses_live()
     for k in known_findings('C15'):
@@ -188,6 +240,8 @@ def run(res):
         'get_fair_states_cases': len(fs_jobs), 'get_fair_states_impl_differs_from_spec': impl_ne_spec,
         'modelcheck_cases': len(mc_jobs), 'modelcheck_F_answer_differs_from_unconstrained': differs_from_unconstrained,
         'exceptions_histogram': {'%s %s' % k: v for k, v in sorted(typeerrors.items())},
+        'non_fair_rewritings_compared': len(rw_lines), 'non_fair_rewriting_mismatches': rw_bad,
+        'fair_labels_compared': len(lb_lines), 'fair_label_mismatches': lb_bad,
         'unexplained_deviations': new_viol, 'deviations_landing_on_the_specification': repaired,
         'findings_still_failing': live,
         'samples': [{'job': [str(x) for x in mc_jobs[i]], 'impl': mc[i][1], 'as_implemented_model': mc_model[i]}
